@@ -99,6 +99,12 @@ CHECKS = {
              "each case is replayed on an iso-scaled real chart (tick = 4 us) and seeded tracks over seeded multi-segment tempo maps add bounds coinciding with note times and each other; TLC judges each recorded call with exact "
              "limb arithmetic (Props!C16V: count in the closed interval over the length within 2^-50, ValueError for non-positive length / absent / note-less).",
         design="5 (C16)", technique="TLA+ model checking (TLC) enumeration + spec->code replay + TLC trace validation with exact limb arithmetic"),
+    "C17": dict(
+        text="TLC model-checks Process.tla (process-wide memo tables with separate compute / store steps, per-call accumulators, failing parses) for every interleaving of 2/3 threads x <= 2 parses over a 3-text corpus (Purity, MemoSound); "
+             "the shared-accumulator, partially-keyed-table and leaking-failure variants are shown to violate Purity. Every history of <= 3/4 parses over a 6-text corpus (TLC-enumerated) runs in its own fresh interpreter; TLC-generated complete "
+             "schedules (24 857) are replayed on the real parser by a deterministic cooperative scheduler (sys.settrace switch points, fresh interpreters and cache-cleared batches), plus seeded line-granularity schedules and a free-running stress; "
+             "TLC judges every parse against the digest of the same text parsed alone in a fresh interpreter (Props!C17V).",
+        design="5 (C17)", technique="TLA+ model checking (TLC) of interleavings + replay of TLC schedules by a deterministic thread scheduler + TLC trace validation"),
 }
 
 PENDING = {}
